@@ -1,4 +1,5 @@
 """C20: documentation tree is structurally faithful; its HTML well-formed and escaped."""
+import copy
 from collections import Counter
 from html.parser import HTMLParser
 
@@ -333,6 +334,7 @@ def run(tier, seed, model_ok, spec_ok, replay=None):
             if tc:
                 cases.append(tc)
                 dist["tree-model"] += 1
+        docs_before = [copy.deepcopy(r.doc) for r in schema.rules]
         for anchor in (None, g.r.choice(["root", "sec-1", "A_b"])):
             start = g.r.choice([1, 2, 3, 5])
             show = g.r.random() < 0.7
@@ -342,6 +344,14 @@ def run(tier, seed, model_ok, spec_ok, replay=None):
                 viol.append(dict(d, what=f"write_tree_html raised {out[1]}"))
                 continue
             html_s = out[1]
+            # rendering reads the tree: the schema's own doc text is what it was, and rendering again gives the same page
+            if [r.doc for r in schema.rules] != docs_before:
+                viol.append(dict(d, what="write_tree_html changed the doc text held by the schema's rules"))
+                break
+            again = E.run_outcome(lambda: v.schema.write_tree_html(nested, anchor_root=anchor, heading_start_level=start, show_root_heading=show))
+            if again != out:
+                viol.append(dict(d, what="rendering the same tree a second time gives a different page", first=html_s[:200], second=repr(again[1])[:200]))
+                break
             b = Balance()
             b.feed(html_s)
             if not b.ok or b.stack:
